@@ -81,7 +81,12 @@ pub fn fault_message(f: &Fault, string_ids: bool) -> Option<Vec<u8>> {
 				3 => json!(u64::MAX),
 				_ => id(1u64 << 63),
 			};
-			json!({"jsonrpc":"2.0","id":idv,"result":1}).to_string().into_bytes()
+			// (5..9: the same ids with an error object - how a server refuses a whole message, e.g. -32010 with id null)
+			if i / 5 % 2 == 1 {
+				json!({"jsonrpc":"2.0","id":idv,"error":{"code":-32010,"message":"The batch request was too large"}}).to_string().into_bytes()
+			} else {
+				json!({"jsonrpc":"2.0","id":idv,"result":1}).to_string().into_bytes()
+			}
 		}
 		Fault::EmptyArray => b"[]".to_vec(),
 		Fault::JunkArray(i) => match i % 4 {
@@ -486,7 +491,7 @@ impl SubCheck for Faults {
 			2 => Just(Fault::PeerGone),
 			2 => (0u8..8).prop_map(Fault::NotJson),
 			2 => (0u8..8).prop_map(Fault::NotRpc),
-			2 => (0u8..5).prop_map(Fault::ResponseToNobody),
+			2 => (0u8..10).prop_map(Fault::ResponseToNobody),
 			1 => Just(Fault::EmptyArray),
 			1 => (0u8..4).prop_map(Fault::JunkArray),
 			2 => (0u8..6).prop_map(Fault::ArrayWithId),
@@ -534,7 +539,7 @@ pub fn enumerated_cases(tier: Tier) -> Vec<C09Case> {
 		faults.push(Fault::NotJson(i));
 		faults.push(Fault::NotRpc(i));
 	}
-	for i in 0..5 {
+	for i in 0..10 {
 		faults.push(Fault::ResponseToNobody(i));
 	}
 	for i in 0..4 {
